@@ -1052,6 +1052,28 @@ class _State(object):
         except Exception as ex:
             self.fail("invar", "key-read-" + type(ex).__name__,
                       "key cannot be read: %r" % (ex,))
+        try:
+            hf = self.hashfn(k.hash)
+            dh = (k.vk.default_hashfunc, k.sk.default_hashfunc)
+            pp = k.sk.privkey.public_key.point
+            ppt = [int(pp.x()), int(pp.y())]
+            dsec = int(k.sk.privkey.secret_multiplier)
+            curves_ = (k.sk.curve, k.vk.curve)
+        except Exception as ex:
+            self.fail("invar", "key-attrs-" + type(ex).__name__,
+                      "key attributes cannot be read: %r" % (ex,))
+        if dh[0] is not hf or dh[1] is not hf:
+            self.fail("invar", "key-default-hash",
+                      "the key's default hash function changed: now %r / %r, "
+                      "was %r" % (dh[0], dh[1], hf))
+        if ppt != list(k.Q) or dsec != k.d:
+            self.fail("invar", "key-private-part",
+                      "privkey of key d=%d now holds d=%d, public point %r "
+                      "(want %r)" % (k.d, dsec, ppt, list(k.Q)))
+        if curves_[0].name != env.mc.name or curves_[1].name != env.mc.name \
+                or int(curves_[0].order) != env.mc.n:
+            self.fail("invar", "key-curve", "the key's curve attribute "
+                      "changed: %r / %r" % (curves_[0], curves_[1]))
         if got != list(k.Q):
             self.fail("invar", "key-point",
                       "public point of key d=%d is %r, want %r" % (
